@@ -9,12 +9,21 @@
          "w": {"nodes":[{"key":k,"kind":"tag"|"rerun"|"sub","sub":{"shape":"chain","len":n}|{"shape":"pq"}}],
                "deps":[{"from":a,"to":b,"kind":"in"|"dep"|"data"}], …},
          "input": "x"}
-  answer: {"result":…, "tasks":[{"k":…,"in":…}] (sorted), "results":[…] (other schedules), "wf":bool}
+  answer: {"result":…, "tasks":[{"k":…,"in":…}] (sorted), "results":[…] (other schedules), "wf":bool,
+           "interrupt":[{"sched":s,"pending":bool,"refold":bool,"calls":n}]}
+  "interrupt": the interrupt/resume model of eager mode (Model/C05Eager.lean) run on the case — its
+  interrupt sets, and every rerun node / interrupting nested graph as a node that aborts as many times
+  as it asks for a rerun / interrupts inside — under several completion schedules: is the resumed
+  history equivalent to the uninterrupted eager run (same final value, same executions) for the
+  repaired drain site (`pending`, the value of Expected.C05.eagerDrainSave) and for the shipped one
+  (`refold`)?  This is a test of the unproved full statement on generated cases, inside the model.
   Interpreter glue only.
 -/
 import EinoV.Basic.JsonUtil
 import EinoV.Model.FlatMap
 import EinoV.Model.C02Workflow
+import EinoV.Model.C05Eager
+import EinoV.Expected.C05
 import EinoV.Oracle.GraphCase
 import EinoV.Oracle.C02Workflow
 import EinoV.Spec.DagWF
@@ -55,8 +64,50 @@ def parseW (j : Json) : JE (WorkflowDef FlatMap) := do
   let deps ← (J.arrD j "deps").mapM C02Workflow.parseDep
   pure { nodes := nodes, deps := deps, branches := [], statics := [] }
 
+open EinoV.Interrupt.Eager in
+/-- how many times the node aborts before it completes -/
+def abortsOf (n : Json) : Nat :=
+  match J.strD n "kind" "" with
+  | "rerun" => J.natD n "rerun" 0
+  | "sub" =>
+    match n.getObjVal? "sub" with
+    | .error _ => 0
+    | .ok s =>
+      let b := (J.arrD s "intBefore").filterMap (fun x => x.getStr?.toOption)
+      let a := (J.arrD s "intAfter").filterMap (fun x => x.getStr?.toOption)
+      let one (p : Bool) : Nat := if p then 1 else 0
+      if J.strD s "shape" "" == "pq" then
+        one (b.contains "p" || b.contains "q") + one (a.contains "p") + one (a.contains "q") + one (b.contains "j")
+      else
+        let len := J.natD s "len" 1
+        let key (i : Nat) : String := "s" ++ toString i
+        one (b.contains (key 0)) +
+          ((List.range (len - 1)).filter (fun i => a.contains (key i) || b.contains (key (i + 1)))).length
+  | _ => 0
+
+open EinoV.Interrupt.Eager in
+def interruptJson (wj : Json) (r : Runner FlatMap) (input : FlatMap) : Json :=
+  let strs (k : String) := (J.arrD wj k).filterMap (fun x => x.getStr?.toOption)
+  let aborts := (J.arrD wj "nodes").filterMap (fun n =>
+    let a := abortsOf n
+    if a == 0 then none else some (J.strD n "key" "", a))
+  let ir : EIRunner FlatMap := { base := r, intBefore := strs "intBefore", intAfter := strs "intAfter", aborts := aborts }
+  let canon (l : List (Key × FlatMap)) : List String :=
+    ((l.map (fun t => t.1 ++ " " ++ FlatMap.render t.2)).toArray.qsort (· < ·)).toList
+  J.mkArr (["first", "last", "kmax", "kmin", "h1", "h2"].map (fun name =>
+    let pick := C02Workflow.pickOf r name
+    let ref := runEager flatOps r pick input
+    let refVal : Option FlatMap := match ref.result with | .ok v => some v | .error _ => none
+    let equiv (save : DrainSave) : Bool × Nat :=
+      let h := historyE flatOps save ir pick 40 input
+      (refVal.isSome && h.final.val? == refVal && canon h.execs == canon ref.submitted, h.calls)
+    let p := equiv ((DrainSave.ofCode Expected.C05.eagerDrainSave).getD .pending)
+    Json.mkObj [("sched", Json.str name), ("pending", Json.bool p.1), ("refold", Json.bool (equiv .refold).1),
+                ("calls", Json.num p.2)]))
+
 def handle (c : Json) : JE Json := do
-  let w ← parseW (← J.field c "w")
+  let wj ← J.field c "w"
+  let w ← parseW wj
   let x ← J.str c "input"
   let r := compileW flatOps w
   let input : FlatMap := [("in", x)]
@@ -68,6 +119,7 @@ def handle (c : Json) : JE Json := do
     ("tasks", J.mkArr ((sortTasks o.submitted).map fun t =>
       Json.mkObj [("k", Json.str t.1), ("in", Json.str (FlatMap.render t.2))])),
     ("results", J.mkArr others),
-    ("wf", Json.bool (Engine.DagRun.dagWFb r))])
+    ("wf", Json.bool (Engine.DagRun.dagWFb r)),
+    ("interrupt", interruptJson wj r input)])
 
 end EinoV.Oracle.C05Eager
